@@ -161,10 +161,10 @@ def harness_cflags(build=PBUILD):
             "-I" + os.path.join(VERIF, "harness")] + MPI_INC
 
 
-def build_harness(src, out, link_parsec=False, extra=(), build=PBUILD, extra_src=()):
+def build_harness(src, out, link_parsec=False, extra=(), build=PBUILD, extra_src=(), cflags=()):
     """compile a harness TU (always: it may #include repo sources)."""
     os.makedirs(BIN, exist_ok=True)
-    cmd = (["cc"] + harness_cflags(build) + [os.path.join(VERIF, src)]
+    cmd = (["cc"] + harness_cflags(build) + list(cflags) + [os.path.join(VERIF, src)]
            + [os.path.join(VERIF, s) for s in extra_src] + ["-o", out])
     if link_parsec:
         libdir = os.path.join(build, "parsec")
@@ -381,6 +381,7 @@ class Check:
     harness_extra_src = ()
     link_parsec = False
     harness_ldflags = ()
+    harness_cflags = ()         # e.g. ("-DBUILDING_PARSEC",) for T-sched harnesses using interpose.h
     technique = "Coq proof + differential correspondence"
     trusted = ()
     assumptions = ()
@@ -507,7 +508,8 @@ class Check:
                 return fails
         if self.harness_src:
             ok, msg = build_harness(self.harness_src, self.hbin(), self.link_parsec,
-                                    self.harness_ldflags, extra_src=self.harness_extra_src)
+                                    self.harness_ldflags, extra_src=self.harness_extra_src,
+                                    cflags=self.harness_cflags)
             if not ok:
                 fails.append(Failure("correspondence", "harness %s no longer compiles against /repo" % self.harness_src, msg))
         if self.extracted:
